@@ -90,7 +90,7 @@ package upstream
 // port - never the dial address.
 //@ func NewUpstream(addr string, opt Opt) (u Upstream, err error)
 //@   props C17
-//@   modifies *
+//@   modifies nothing
 //@   callsite tryTrimIpv6Brackets: [C17:url-host] arg0 == addrURL.Host
 //@   callsite getDialAddr: [C17:dial-addr-inputs] arg0 == urlAddrHost && arg1 == opt.DialAddr
 //@   callsite getDialAddr: [C17:default-port] arg2 == ((addrURL.Scheme == "" || addrURL.Scheme == "udp" || addrURL.Scheme == "tcp") ? "53" : ((addrURL.Scheme == "tls" || addrURL.Scheme == "quic" || addrURL.Scheme == "doq") ? "853" : (addrURL.Scheme == "http" ? "80" : "443")))
